@@ -28,8 +28,8 @@ ASSUMPTIONS = [
     "reference semantics: first item whose session mnemonic equals the key, compared case-insensitively iff the section was read with case normalisation",
 ]
 
-NAMES = ["A", "a", "B", "", "A:1", "1", "count", "Vsh"]
-PROBES = ["A", "a", "B", "b", "", "UNKNOWN", "unknown", "1", "A:1", "a:1", "A:2", "Z", "count", "COUNT", "Vsh", "VSH", "vsh"]
+NAMES = ["A", "a", "B", "", "A:1", "1", "count", "Vsh", "_B"]
+PROBES = ["A", "a", "B", "b", "", "UNKNOWN", "unknown", "1", "A:1", "a:1", "A:2", "Z", "count", "COUNT", "Vsh", "VSH", "vsh", "_B", "_b", "__B"]
 DEPTH = {"quick": 3, "thorough": 5}
 ROOTS = ["empty", "empty-ci", "read-preserve", "read-upper", "read-upper-emptyP", "read-lower-emptyP", "read-preserve-emptyP",
          "read-upper-pickled", "read-upper-deepcopied", "read-curves", "read-curves-pickled",
